@@ -58,11 +58,8 @@ Qed.
 Lemma unary_body_char x t :
   unary_body x t = Ok_ {| rcat := t; op_string := if tr_caseb x t then l_tr else l_lex; op_symbol := y_un; head_is_left := true |}.
 Proof.
-  unfold unary_body. cbn [bind]. destruct x as [b f | l s r]; cbn [bind is_fun negb base_of tr_caseb].
-  - change [[78; 80]; [80; 80]] with [n_NP; n_PP]. destruct (text_in b [n_NP; n_PP]); cbn [bind andb].
-    + rewrite is_type_raised_char. cbn [bind]. now destruct (type_raisedb t).
-    + reflexivity.
-  - reflexivity.
+  unfold unary_body, n_NP, n_PP.
+  destruct x as [b f | l s r]; destruct t as [tb tf | tl ts [tb tf | trl ts' trr]]; cbn [tr_caseb type_raisedb]; crunch.
 Qed.
 
 Lemma mapM_unary x ts :
